@@ -101,6 +101,7 @@ func init() {
 			g.Static = append(g.Static, frame.MapRanges(env.Prog, reach, mapRangeJustifications(env), checkJustification(env))...)
 			g.Extra["maprange_call_graph_functions"] = len(reach)
 			g.Static = append(g.Static, writeBeforeRead(env, g, "C14")...)
+			g.Static = append(g.Static, globalWrites(env, reach, "C14")...)
 			g.Unverified = []string{
 				"which lines the selection regexp accepts, the noise-path regexps, the journald JSON unwrapping",
 			}
@@ -154,4 +155,38 @@ func init() {
 			return g
 		},
 	})
+}
+
+// globalWrites: every package variable written on the call graph is declared in an
+// "opt globalwrites=" clause of the property (each declared variable needs its own
+// justification: a write-before-read obligation or a note in the contract file).
+func globalWrites(env *Env, reach map[*ssa.Function]bool, prop string) []frame.Result {
+	allowed := map[string]bool{}
+	for _, fc := range funcsWithProp(env, prop) {
+		for _, v := range strings.Split(fc.Opts["globalwrites"], ",") {
+			if v = strings.TrimSpace(v); v != "" {
+				allowed[v] = true
+			}
+		}
+	}
+	ws := frame.GlobalWrites(env.Prog, reach)
+	var names []string
+	for k := range ws {
+		names = append(names, k)
+	}
+	sort.Strings(names)
+	res := frame.Result{Name: "call-graph/no-undeclared-package-state", OK: true}
+	var bad []string
+	for _, k := range names {
+		if !allowed[k] {
+			bad = append(bad, k+" (written by "+ws[k][0]+")")
+		}
+	}
+	if len(bad) > 0 {
+		res.OK = false
+		res.Detail = "package variables written on the call graph but not declared: " + strings.Join(bad, "; ")
+	} else {
+		res.Detail = fmt.Sprintf("%d package variable(s) written on the call graph, all declared: %s", len(names), strings.Join(names, ", "))
+	}
+	return []frame.Result{res}
 }
